@@ -89,8 +89,9 @@ def prepare(lean_targets=(), need_race=False):
             f.write(f"module verifharness\n\ngo 1.21.5\n\nrequire macsmol/magog v0.0.0\n\nreplace macsmol/magog => {REPO}\n")
         open(os.path.join(BUILD, "harness.sum"), "w").close()
         harness = os.path.join(VERIF, "harness")
-        fresh = prev.get("fp") == fp and all(os.path.exists(p) for p in (HDRV, MAGOG, os.path.join(BUILD, "extract"),
-                                                                       os.path.join(BUILD, "facts.json"), os.path.join(BUILD, "dump.json")))
+        fresh = prev.get("fp") == fp and all(os.path.exists(p) for p in (HDRV, MAGOG, os.path.join(BUILD, "extract"), os.path.join(BUILD, "go2lean"),
+                                                                       os.path.join(BUILD, "facts.json"), os.path.join(BUILD, "dump.json"),
+                                                                       os.path.join(BUILD, "Funcs.lean")))
         if not fresh:
             rc, out = sh(["go", "build", "-modfile", modfile, "-o", os.path.join(BUILD, "extract"), "./cmd/extract"], cwd=harness, env=GOENV)
             if rc != 0:
@@ -100,6 +101,15 @@ def prepare(lean_targets=(), need_race=False):
                 raise BuildError("extractor failed:\n" + out)
             with open(os.path.join(BUILD, "facts.json"), "w") as f:
                 f.write(out)
+            # T0: translator Go -> Lean for the pure functions in its whitelist (harness/cmd/go2lean)
+            rc, out = sh(["go", "build", "-modfile", modfile, "-o", os.path.join(BUILD, "go2lean"), "./cmd/go2lean"], cwd=harness, env=GOENV)
+            if rc != 0:
+                raise BuildError("translator build failed:\n" + out)
+            p = subprocess.run([os.path.join(BUILD, "go2lean"), REPO], stdout=subprocess.PIPE, stderr=subprocess.PIPE, text=True, env=GOENV)
+            if p.returncode != 0 or "end Magog.Gen.Fn" not in p.stdout:
+                raise BuildError("translator failed (does the repository still type-check?):\n" + p.stderr[-2000:])
+            with open(os.path.join(BUILD, "Funcs.lean"), "w") as f:
+                f.write(p.stdout)
             rc, out = sh(["go", "build", "-modfile", modfile, "-tags", "verif", "-o", HDRV, "./cmd/hdrv"], cwd=harness, env=GOENV)
             if rc != 0:
                 raise BuildError("hdrv build failed (does the repository still compile with -tags verif?):\n" + out)
@@ -124,6 +134,13 @@ def prepare(lean_targets=(), need_race=False):
         if rc != 0:
             raise BuildError("gen_lean failed:\n" + out)
         gen_changed = out.strip()
+        # translated functions: written only when the text changes (lake traces by content anyway)
+        new = open(os.path.join(BUILD, "Funcs.lean")).read()
+        fpath = os.path.join(LEAN, "Magog", "Generated", "Funcs.lean")
+        if not os.path.exists(fpath) or open(fpath).read() != new:
+            with open(fpath, "w") as f:
+                f.write(new)
+            gen_changed = gen_changed.replace("changed: none", "changed: Funcs") if "changed: none" in gen_changed else gen_changed + ",Funcs"
         facts = json.load(open(os.path.join(BUILD, "facts.json")))
         res = {"facts": facts, "gen": gen_changed, "lean": {}, "prepare_s": 0.0}
         # driver first (model + spec); then proof modules
